@@ -892,6 +892,42 @@ def py_alignments(points, hull, observer, ceiling):
     return al
 
 
+SIG_OBLIQUE = "C18:reorient:outside-45-degree-condition"
+
+
+def cond45(points, hull, observer, ceiling):
+    """every outward hull triangle's normal is within 45 degrees of one of the six viewing directions: the sufficient
+    condition under which the alignment heuristic is proved to pick the two triangles of one geometric face
+    (C18_grouping_separation)"""
+    try:
+        al = py_alignments(points, hull, observer, ceiling)
+    except Exception:  # noqa: BLE001
+        return True
+    c45 = math.cos(math.pi / 4)
+    nt = len(hull)
+    return all(max(al[s][t] for s in ORDER) > c45 for t in range(nt))
+
+
+def reorient_failure(points, observer, ceiling, hull, why):
+    """replay dict of a failed re-orientation; failures outside the 45-degree condition carry the signature of the open
+    finding (the greedy choice takes a triangle of an adjacent face), all others are violations of their own"""
+    d = dict(kind="reorient", points=points, observer=observer, ceiling=ceiling, why=why)
+    if hull is not None and len(hull) == 12 and not cond45(points, hull, observer, ceiling):
+        d["sig"] = SIG_OBLIQUE
+        d["why"] = why + " (a hull triangle's normal is more than 45 degrees off every viewing direction)"
+    return d
+
+
+def load_reorient_corpus():
+    import glob
+    out = []
+    for fn in sorted(glob.glob(os.path.join(core.VERIF, "corpus", "C18", "reorient-*.json"))):
+        with open(fn) as fh:
+            d = json.load(fh)
+        out.append((d["points"], d["observer"], d["ceiling"]))
+    return out
+
+
 def rank_from(al):
     return [sorted(range(12), key=lambda t: al[s][t]) for s in ORDER]
 
@@ -1202,6 +1238,17 @@ class C18(Prop):
         n_views = ctx.n(3, 5)
         ocases = []
         hull_bad = 0
+        # regression corpus first (one numbering each): inputs of recorded findings
+        for (cpts, cobs, ccei) in load_reorient_corpus():
+            out, err, hull = run_reorient(cpts, cobs, ccei)
+            res.evaluations += 1
+            res.count("reorient corpus")
+            why = oracle_reorient(cpts, cobs, ccei, out, err)
+            if why:
+                if hull is None:
+                    from scipy.spatial import ConvexHull
+                    hull = [[int(x) for x in sx] for sx in ConvexHull(_np().array(cpts)).simplices]
+                res.oracle_failures.append(reorient_failure(cpts, cobs, ccei, hull, why))
         for bi in range(n_blocks):
             # every third block is looked at from far off its faces' directions (the side that faces the observer is then
             # well aligned with two viewing axes at once)
@@ -1234,12 +1281,20 @@ class C18(Prop):
                     res.count("numbering=" + ("rotation" if pi < 48 and _orientation(p) > 0 else "mirrored"))
                     res.distinct.add(json.dumps([pts, obs, cei]))
                     if why:
-                        res.oracle_failures.append(dict(kind="reorient", points=pts, observer=obs, ceiling=cei, why=why))
+                        res.oracle_failures.append(reorient_failure(pts, obs, cei, hull, why))
                     if cid == 5:
                         res.samples.append(dict(kind="reorient", points=pts, observer=obs, ceiling=cei, new_numbering=out_idx))
                 if len(outs) > 1:
-                    res.oracle_failures.append(dict(kind="reorient-independence", canonical=C, observer=obs, ceiling=cei,
-                                                    why="the 48 initial numberings give %d different results" % len(outs)))
+                    f_ind = dict(kind="reorient-independence", canonical=C, observer=obs, ceiling=cei,
+                                 why="the 48 initial numberings give %d different results" % len(outs))
+                    try:
+                        from scipy.spatial import ConvexHull
+                        hc = [[int(x) for x in sx] for sx in ConvexHull(_np().array(C)).simplices]
+                        if len(hc) == 12 and not cond45(C, hc, obs, cei):
+                            f_ind["sig"] = SIG_OBLIQUE
+                    except Exception:  # noqa: BLE001
+                        pass
+                    res.oracle_failures.append(f_ind)
         if hull_bad:
             res.notes.append("Qhull assumption not met on %d cases" % hull_bad)
             res.count("hull assumption violated", hull_bad)
@@ -1384,6 +1439,8 @@ class C18(Prop):
         return None
 
     def signature(self, rp):
+        if rp.get("sig"):
+            return rp["sig"]
         why = rp.get("why", "")
         for key in ("missed", "extra", "find_core", "find_shell", "right-handed", "front side", "top side", "raised",
                     "eight points", "different results", "unit cube"):
